@@ -28,19 +28,18 @@ def parseLink (j : J) : Except String ((Nat × Nat) × (Nat × Nat)) := do
 def stepNet (n : Net) (j : J) : Except String (Net × J) := do
   let k ← j.string "op"
   if k = "adv" then
-    pure ({ n with now := n.now + (← j.nat "ms") }, J.mk [("k", J.str "adv")])
+    pure ((netStep 66 n (.adv (← j.nat "ms"))).1, J.mk [("k", J.str "adv")])
   else if k = "sweep" then
     let i ← j.nat "sw"
-    match n.sws[i]? with
+    let (n', _, _) := netStep 66 n (.sweep i)
+    match n'.sws[i]? with
     | none => throw "sweep: no such switch"
-    | some s =>
-      let s' := sweep s n.now
-      pure ({ n with sws := n.sws.set i s' }, J.mk [("k", J.str "sweep"), ("flows", tableJ s')])
+    | some s' => pure (n', J.mk [("k", J.str "sweep"), ("flows", tableJ s')])
   else if k = "rx" then
     let x ← parseFrame j
     let i ← j.nat "sw"
     if i ≥ n.sws.length then throw "rx: no such switch"
-    let (n', log, ok) := propagate 66 n x [(i, ← j.nat "port")]
+    let (n', log, ok) := netStep 66 n (.rx i (← j.nat "port") x)
     if !ok then throw "frame circulates"
     pure (n', J.mk [("k", J.str "rx"), ("arr", J.arr (log.map (arrivalJ x)))])
   else throw s!"unknown op {k}"
@@ -55,7 +54,9 @@ def runNet (n : Net) : List J → Except String (List J)
 /-- request {"transparent":b,"t0":ms,"switches":[{"ports":n,"bufs":k}…],"links":[[a,pa,b,pb]…],"ops":[…]} → {"steps":[…]} -/
 def handle (j : J) : Except String J := do
   let tr ← j.boolean "transparent"
-  let sws ← (← j.array "switches").mapM fun s => do pure (init (← s.nat "ports") (← s.nat "bufs") tr)
+  let rl ← j.boolean "relearn"          -- does the tree under test carry repair C11-K1 (found by the harness reading l2_learning.py)
+  let dip ← j.boolean "dropinport"
+  let sws ← (← j.array "switches").mapM fun s => do pure (init (← s.nat "ports") (← s.nat "bufs") tr rl dip)
   let links ← (← j.array "links").mapM parseLink
   let steps ← runNet { sws := sws, links := links, now := ← j.nat "t0" } (← j.array "ops")
   pure (J.mk [("steps", J.arr steps)])
